@@ -1,0 +1,33 @@
+//go:build verif
+
+package config
+
+// Contracts checked by /verif (lsvc). This file contains comments only and is
+// compiled only with the build tag "verif".
+
+// The float32 -> Duration conversion is uninterpreted: the result is an
+// arbitrary int64 that depends only on the configuration (every float
+// behaviour, including out-of-range conversions, is covered).
+//@ func (sw Sweeper) RetentionDuration
+//@   function
+//@   trusted
+
+//@ func (sw Sweeper) RetentionDurationMinusCutoff
+//@   nopanic
+//@   pure
+//@   ensures le_retention: r0 <= sw.RetentionDuration()
+//@   ensures nonneg: sw.RetentionDuration() >= 0 ==> r0 >= 0
+//@   ensures default_one_percent: sw.RetentionLoadCutoffDuration <= 0 ==> r0 == sw.RetentionDuration() - sw.RetentionDuration()/100
+
+// The load cutoff (now - RetentionDurationMinusCutoff) is never older than the
+// sweeper cutoff (earlier now - RetentionDuration): a marker the sweeper may
+// already have removed is never re-created by a later load.
+//@ lemma load_cutoff_not_older
+//@   var sw Sweeper
+//@   var tSweep int64
+//@   var tLoad int64
+//@   call rd = sw.RetentionDuration()
+//@   call rdmc = sw.RetentionDurationMinusCutoff()
+//@   assume 0 <= tSweep && tSweep <= tLoad && tLoad <= 9223372036854775807 / 2
+//@   assume 0 <= rd && rd <= 9223372036854775807 / 2
+//@   prove not_older: tLoad - int64(rdmc) >= tSweep - int64(rd)
